@@ -7,7 +7,7 @@ set -u
 ID=$1; DIR=$2; PKG=$3; RUN=$4; shift 4
 WT=/tmp/sc-$ID-$$
 TAG=$(python3 -c "import hashlib,sys;print(hashlib.sha1(sys.argv[1].encode()).hexdigest()[:8])" $WT)
-export GOFLAGS=-mod=mod GOPROXY=off GOSUMDB=off GOTOOLCHAIN=local
+export GOFLAGS= GOPROXY=off GOSUMDB=off GOTOOLCHAIN=local
 git -C /repo worktree add -q --detach $WT HEAD || exit 3
 trap 'git -C /repo worktree remove --force $WT >/dev/null 2>&1; git -C /repo worktree prune; rm -rf /verif/.build/alt-$TAG /verif/.work/alt-$TAG' EXIT
 cp $DIR/demo_test.go $WT/$PKG/zz_seed_demo_test.go
